@@ -110,9 +110,20 @@ func (u *union) Parse(ctx *parseContext, parent reflect.Value) (out []reflect.Va
 		return nil, err
 	}
 	for i := range vals {
-		vals[i] = maybeRef(u.members[i], vals[i]).Convert(u.typ)
+		vals[i] = maybeRef(u.memberFor(vals[i].Type()), vals[i]).Convert(u.typ)
 	}
 	return vals, nil
+}
+
+// memberFor returns the declared member type (struct or pointer to struct) that
+// a parsed value of type t belongs to.
+func (u *union) memberFor(t reflect.Type) reflect.Type {
+	for _, member := range u.members {
+		if member == t || (member.Kind() == reflect.Ptr && member.Elem() == t) {
+			return member
+		}
+	}
+	return t
 }
 
 // @@
